@@ -1234,7 +1234,61 @@ class Interp:
                 fr.ctrl = 'return'
                 break
 
+    def counting_while(self, s, fr):
+        """while i <= A [and i <= B ...]: body; i += 1   (i not otherwise assigned, no continue)  ->  equivalent for-range node"""
+        if s.orelse or not s.body:
+            return None
+        last = s.body[-1]
+        if not (isinstance(last, ast.AugAssign) and isinstance(last.target, ast.Name) and isinstance(last.op, (ast.Add, ast.Sub))
+                and isinstance(last.value, ast.Constant) and last.value.value == 1):
+            return None
+        i = last.target.id
+        up = isinstance(last.op, ast.Add)
+        for st in s.body[:-1]:
+            for n in ast.walk(st):
+                if isinstance(n, ast.Continue):
+                    return None
+                if isinstance(n, ast.Name) and n.id == i and isinstance(n.ctx, ast.Store):
+                    return None
+        conj = s.test.values if (isinstance(s.test, ast.BoolOp) and isinstance(s.test.op, ast.And)) else [s.test]
+        bounds = []
+        for c in conj:
+            if not (isinstance(c, ast.Compare) and len(c.ops) == 1):
+                return None
+            l, op, r = c.left, c.ops[0], c.comparators[0]
+            if isinstance(r, ast.Name) and r.id == i and not (isinstance(l, ast.Name) and l.id == i):
+                l, r = r, l
+                op = {ast.Lt: ast.Gt, ast.Gt: ast.Lt, ast.LtE: ast.GtE, ast.GtE: ast.LtE}.get(type(op), type(op))()
+            if not (isinstance(l, ast.Name) and l.id == i) or any(isinstance(x, ast.Name) and x.id == i for x in ast.walk(r)):
+                return None
+            # the bound must not change in the loop
+            if any(isinstance(x, ast.Name) and x.id in self.modified_names(s.body) for x in ast.walk(r)):
+                return None
+            if up and isinstance(op, ast.LtE):
+                bounds.append(ast.BinOp(left=r, op=ast.Add(), right=ast.Constant(1)))
+            elif up and isinstance(op, ast.Lt):
+                bounds.append(r)
+            elif not up and isinstance(op, ast.GtE):
+                bounds.append(ast.BinOp(left=r, op=ast.Sub(), right=ast.Constant(1)))
+            elif not up and isinstance(op, ast.Gt):
+                bounds.append(r)
+            else:
+                return None
+        if len(bounds) == 1:
+            hi = bounds[0]
+        else:
+            hi = ast.Call(func=ast.Name(id='min' if up else 'max', ctx=ast.Load()), args=bounds, keywords=[])
+        args = [ast.Name(id=i, ctx=ast.Load()), hi] + ([] if up else [ast.Constant(-1)])
+        node = ast.For(target=ast.Name(id=i, ctx=ast.Store()), iter=ast.Call(func=ast.Name(id='range', ctx=ast.Load()), args=args, keywords=[]),
+                       body=s.body[:-1] or [ast.Pass()], orelse=[])
+        ast.copy_location(node, s)
+        ast.fix_missing_locations(node)
+        return node
+
     def stmt_while(self, s, fr):
+        cw = self.counting_while(s, fr)
+        if cw is not None:
+            return self.stmt_for(cw, fr)
         wid = next(self.ids)
         pre = dict(fr.env)
         mods = self.modified_names(s.body)
